@@ -6,7 +6,12 @@
 //! duplicated or dropped, whose election timer fires, when a leader heartbeats, when a client
 //! proposes, which node is cut off and which node crashes (object dropped, WAL file kept) or restarts
 //! (`RaftNode::with_wal`). Every event is one the real run loop (`RaftNode::run` / `tick_async` /
-//! `cluster.rs`) can produce; no message is hand-made.
+//! `cluster.rs`) can produce; no message is hand-made, except the SnapshotRequest of a lagging
+//! follower (the repository has the handlers for snapshot transfer but no sender).
+//!
+//! One case in three runs with log compaction and snapshot transfer reachable: the application
+//! finalizes, the leader's tick compacts, a follower behind the leader's snapshot pulls it chunk by
+//! chunk, installs it, keeps acknowledging entries, crashes, restarts from its WAL, gets elected.
 //!
 //! Online monitor (oracle), evaluated after every event on the node the event touched:
 //!  (i)   commit agreement — `committed: index -> (term, payload id)`; first reporter wins, every
@@ -15,7 +20,9 @@
 //!        committed by a node whose term was < T (at its election) / <= T (while it stays leader);
 //!  (iii) election safety — at most one node is ever observed Leader in a term;
 //!  (iv)  log matching — two live logs that agree on the term at a position agree on all earlier ones;
-//!  (v)   a node's commit index never points beyond its own log.
+//!  (v)   a node's commit index never points beyond its own log or at an index missing inside it;
+//!  (vi)  a node's snapshot (last included index/term) agrees with the committed map.
+//! With compaction only indices a node still holds are compared.
 //!
 //! Parts: `random` (seeded schedules, config matrix pre-vote x fast-path x geometric tie-break,
 //! 3 and 5 voters), `directed` (a few hand-ordered hostile schedules, executed through the same
@@ -31,7 +38,7 @@ use std::path::PathBuf;
 use std::sync::Arc;
 use std::time::Instant;
 use tensor_chain::block::{Block, BlockHeader};
-use tensor_chain::network::Message;
+use tensor_chain::network::{Message, SnapshotRequest};
 use tensor_chain::raft::{RaftConfig, RaftNode, RaftState};
 use tensor_store::{SparseVector, TensorStore};
 
@@ -55,22 +62,53 @@ struct Cfg {
     pre_vote: bool,
     fast_path: bool,
     geometric: bool,
+    /// 0 = no log compaction (snapshot_threshold stays at 10 000); 1..=4 = compaction and snapshot
+    /// transfer reachable with a handful of entries (see `COMPACTION`)
+    snap: u8,
 }
+
+/// (snapshot_threshold, snapshot_trailing_logs, snapshot_chunk_size) of the compaction variants
+/// Variants 1 and 2 take snapshots but keep the whole log behind them (trailing logs 1000), so every
+/// snapshot carries the log from index 1; variants 3 and 4 also drain the log behind the snapshot
+/// (only run with `--drain 1`, see Meta.assumptions).
+const COMPACTION: [(usize, usize, u64); 5] = [(10_000, 100, 1 << 20), (3, 1_000, 1 << 20), (4, 1_000, 256), (3, 1, 1 << 20), (5, 0, 256)];
 
 impl Cfg {
     fn from_bits(nodes: usize, bits: u64) -> Cfg {
-        Cfg { nodes, pre_vote: bits & 1 != 0, fast_path: bits & 2 != 0, geometric: bits & 4 != 0 }
+        Cfg { nodes, pre_vote: bits & 1 != 0, fast_path: bits & 2 != 0, geometric: bits & 4 != 0, snap: ((bits >> 3) & 7).min(4) as u8 }
     }
     fn bits(&self) -> u64 {
-        self.pre_vote as u64 | (self.fast_path as u64) << 1 | (self.geometric as u64) << 2
+        self.pre_vote as u64 | (self.fast_path as u64) << 1 | (self.geometric as u64) << 2 | (self.snap as u64) << 3
     }
     fn name(&self) -> String {
+        let c = COMPACTION[self.snap as usize];
         format!(
-            "n{}:prevote={}:fastpath={}:geometric={}",
-            self.nodes, self.pre_vote as u8, self.fast_path as u8, self.geometric as u8
+            "n{}:prevote={}:fastpath={}:geometric={}{}",
+            self.nodes,
+            self.pre_vote as u8,
+            self.fast_path as u8,
+            self.geometric as u8,
+            if self.snap > 0 { format!(":compaction=thr{}/trail{}/chunk{}", c.0, c.1, c.2) } else { String::new() }
         )
     }
-    fn raft(&self) -> RaftConfig {
+    fn raft(&self, tmp: &std::path::Path) -> RaftConfig {
+        let c = COMPACTION[self.snap as usize];
+        let base = if self.snap > 0 {
+            RaftConfig {
+                snapshot_threshold: c.0,
+                snapshot_trailing_logs: c.1,
+                snapshot_chunk_size: c.2,
+                compaction_check_interval: 1,
+                compaction_cooldown_ms: 0,
+                // the leader's tick is used for compaction only; heartbeats stay explicit simulator
+                // events (tick_async would send them depending on wall time)
+                heartbeat_interval: 3_600_000,
+                snapshot_temp_dir: Some(tmp.to_path_buf()),
+                ..RaftConfig::default()
+            }
+        } else {
+            RaftConfig::default()
+        };
         RaftConfig {
             // `handle_pre_vote` grants only when the voter's own election timer has run out
             // (`last_heartbeat.elapsed() > election_timeout.0`). With 8 s here, a timer that was just
@@ -82,7 +120,7 @@ impl Cfg {
             enable_fast_path: self.fast_path,
             enable_geometric_tiebreak: self.geometric,
             auto_heartbeat: false,
-            ..RaftConfig::default()
+            ..base
         }
     }
 }
@@ -121,6 +159,8 @@ fn mkey(from: usize, to: usize, m: &Message) -> MKey {
         Message::PreVoteResponse(x) => ("PVR", x.term, x.vote_granted as u64, 0, 0),
         Message::AppendEntries(x) => ("AE", x.term, x.prev_log_index, x.entries.len() as u64, x.leader_commit),
         Message::AppendEntriesResponse(x) => ("AER", x.term, x.success as u64, x.match_index, 0),
+        Message::SnapshotRequest(x) => ("SRQ", 0, x.offset, x.chunk_size, 0),
+        Message::SnapshotResponse(x) => ("SRS", x.snapshot_height, x.offset, x.data.len() as u64, x.is_last as u64),
         other => (other.type_name(), 0, 0, 0, 0),
     };
     MKey { from, to, k: k.to_string(), t, a, b, c }
@@ -143,6 +183,15 @@ fn mdesc(m: &Message) -> String {
         Message::AppendEntriesResponse(x) => {
             format!("AppendResponse(term {}, success {}, match_index {})", x.term, x.success, x.match_index)
         }
+        Message::SnapshotRequest(x) => format!("SnapshotRequest(offset {}, chunk_size {})", x.offset, x.chunk_size),
+        Message::SnapshotResponse(x) => format!(
+            "SnapshotResponse(height {}, offset {}, {} of {} bytes, last {})",
+            x.snapshot_height,
+            x.offset,
+            x.data.len(),
+            x.total_size,
+            x.is_last
+        ),
         other => other.type_name().to_string(),
     }
 }
@@ -169,6 +218,13 @@ enum Ev {
     Heal { n: usize },
     Crash { n: usize },
     Restart { n: usize },
+    /// the application on node n has applied everything committed: `finalize_to(commit_index)`
+    Finalize { n: usize },
+    /// the leader's periodic tick (`tick_async`): automatic log compaction behind the finalized height
+    LeaderTick { n: usize },
+    /// a follower that can no longer be caught up from its leader's log asks it for the snapshot
+    /// (first chunk; the following chunks are requested as the answers arrive)
+    SnapRequest { n: usize },
 }
 
 impl Ev {
@@ -187,6 +243,9 @@ impl Ev {
             Ev::Heal { .. } => "heal",
             Ev::Crash { .. } => "crash",
             Ev::Restart { .. } => "restart",
+            Ev::Finalize { .. } => "finalize",
+            Ev::LeaderTick { .. } => "leader_tick",
+            Ev::SnapRequest { .. } => "snapshot_request",
         }
     }
 }
@@ -212,32 +271,78 @@ struct Found {
     step: usize,
 }
 
+/// What a node holds of the log: entries by index (a compacted prefix is simply absent).
+#[derive(Clone, Debug, Default)]
+struct Img {
+    /// index of the first held entry (1 when nothing was compacted)
+    first: u64,
+    /// ents[k] = (term, payload id) of index first + k; None = the node holds later entries but not this one
+    ents: Vec<Option<(u64, u64)>>,
+}
+
+impl Img {
+    fn last(&self) -> u64 {
+        if self.ents.is_empty() {
+            0
+        } else {
+            self.first + self.ents.len() as u64 - 1
+        }
+    }
+    fn get(&self, i: u64) -> Option<(u64, u64)> {
+        if i < self.first || self.ents.is_empty() {
+            return None;
+        }
+        self.ents.get((i - self.first) as usize).copied().flatten()
+    }
+}
+
 #[derive(Default)]
 struct Monitor {
     committed: BTreeMap<u64, Committed>,
     leader_of: BTreeMap<u64, usize>,
-    /// last image of every live node's log: position i-1 holds (term, payload id) of index i
-    logs: Vec<Option<Vec<(u64, u64)>>>,
+    /// last image of every live node's log
+    logs: Vec<Option<Img>>,
+    /// (last_included_index, last_included_term) of every live node's snapshot, if it has one
+    snaps: Vec<Option<(u64, u64)>>,
     /// prev_log_index + entries.len() of the last AppendEntries each node handled (labels only)
     last_new: Vec<u64>,
+    /// node restarted after it had installed a snapshot (evidence only)
+    restarted_after_install: Vec<bool>,
     found: Option<Found>,
     // evidence
     commit_checks: u64,
     new_commits: u64,
     leaders_seen: u64,
+    leaders_after_install_and_restart: u64,
     completeness_checks: u64,
+    completeness_behind_snapshot: u64,
     matching_checks: u64,
+    snapshot_checks: u64,
     max_term: u64,
     max_commit: u64,
 }
 
-fn fmt_log(l: &[(u64, u64)]) -> String {
-    l.iter().enumerate().map(|(i, (t, id))| format!("{}:t{}#{}", i + 1, t, id)).collect::<Vec<_>>().join(" ")
+fn fmt_log(l: &Img) -> String {
+    let body = l
+        .ents
+        .iter()
+        .enumerate()
+        .map(|(k, e)| match e {
+            Some((t, id)) => format!("{}:t{}#{}", l.first + k as u64, t, id),
+            None => format!("{}:MISSING", l.first + k as u64),
+        })
+        .collect::<Vec<_>>()
+        .join(" ");
+    if l.first > 1 && !l.ents.is_empty() {
+        format!("(1..{} compacted) {}", l.first - 1, body)
+    } else {
+        body
+    }
 }
 
 impl Monitor {
     fn new(n: usize) -> Monitor {
-        Monitor { logs: vec![None; n], last_new: vec![0; n], ..Default::default() }
+        Monitor { logs: vec![None; n], snaps: vec![None; n], last_new: vec![0; n], restarted_after_install: vec![false; n], ..Default::default() }
     }
     fn flag(&mut self, step: usize, sig: &str, detail: String) {
         if self.found.is_none() {
@@ -245,7 +350,8 @@ impl Monitor {
         }
     }
 
-    /// `node` is live; `log` is its current image
+    /// `node` is live; its current image is in `self.logs[node]`. Only indices the node still holds
+    /// are compared; what lies behind its compaction point is represented by its snapshot.
     fn check(&mut self, step: usize, node: usize, role: RaftState, term: u64, commit: u64, log_changed: bool) {
         if self.found.is_some() {
             return;
@@ -257,17 +363,27 @@ impl Monitor {
         self.max_term = self.max_term.max(term);
         self.max_commit = self.max_commit.max(commit);
         // (v)
-        if commit > log.len() as u64 {
+        if commit > log.last() {
             self.flag(
                 step,
                 "commit-index-beyond-own-log",
-                format!("n{} (term {}, {:?}) has commit_index {} but its log ends at {}: [{}]", node, term, role, commit, log.len(), fmt_log(&log)),
+                format!("n{} (term {}, {:?}) has commit_index {} but its log ends at {}: [{}]", node, term, role, commit, log.last(), fmt_log(&log)),
             );
             return;
         }
         // (i)
-        for i in 1..=commit {
-            let (t, id) = log[i as usize - 1];
+        for i in log.first.max(1)..=commit {
+            let (t, id) = match log.get(i) {
+                Some(e) => e,
+                None => {
+                    self.flag(
+                        step,
+                        "commit-index-covers-missing-entry",
+                        format!("n{} (term {}, {:?}) has commit_index {} but holds no entry at index {} inside its log: [{}]", node, term, role, commit, i, fmt_log(&log)),
+                    );
+                    return;
+                }
+            };
             match self.committed.get(&i) {
                 Some(c) => {
                     self.commit_checks += 1;
@@ -301,6 +417,25 @@ impl Monitor {
                 }
             }
         }
+        // a snapshot stands for committed entries: its last included (index, term) must be the
+        // committed entry of that index
+        if let Some((si, st)) = self.snaps[node] {
+            if let Some(c) = self.committed.get(&si) {
+                self.snapshot_checks += 1;
+                if c.term != st {
+                    let c = c.clone();
+                    self.flag(
+                        step,
+                        "snapshot-disagrees-with-committed-entry",
+                        format!(
+                            "n{} holds a snapshot ending at index {} term {}, but n{} reported t{}#{} committed at that index at step {}",
+                            node, si, st, c.reporter, c.term, c.id, c.step
+                        ),
+                    );
+                    return;
+                }
+            }
+        }
         // (iii) + (ii)
         if role == RaftState::Leader {
             let mut newly = false;
@@ -313,6 +448,9 @@ impl Monitor {
                 None => {
                     self.leader_of.insert(term, node);
                     self.leaders_seen += 1;
+                    if self.restarted_after_install[node] {
+                        self.leaders_after_install_and_restart += 1;
+                    }
                     newly = true;
                 }
             }
@@ -322,15 +460,19 @@ impl Monitor {
                 if !applies {
                     continue;
                 }
+                if *i < log.first && !log.ents.is_empty() {
+                    // behind the leader's compaction point: covered by its snapshot, not comparable
+                    self.completeness_behind_snapshot += 1;
+                    continue;
+                }
                 self.completeness_checks += 1;
-                let have = log.get(*i as usize - 1).copied();
-                if have != Some((c.term, c.id)) {
+                if log.get(*i) != Some((c.term, c.id)) {
                     miss = Some((*i, c.clone()));
                     break;
                 }
             }
             if let Some((i, c)) = miss {
-                let have = log.get(i as usize - 1).map(|(t, id)| format!("t{}#{}", t, id)).unwrap_or_else(|| "nothing".into());
+                let have = log.get(i).map(|(t, id)| format!("t{}#{}", t, id)).unwrap_or_else(|| "nothing".into());
                 self.flag(
                     step,
                     if newly { "leader-elected-without-committed-entry" } else { "leader-lacks-committed-entry" },
@@ -342,7 +484,7 @@ impl Monitor {
                 return;
             }
         }
-        // (iv)
+        // (iv) over the range both nodes hold
         if log_changed {
             for o in 0..self.logs.len() {
                 if o == node {
@@ -353,29 +495,44 @@ impl Monitor {
                     None => continue,
                 };
                 self.matching_checks += 1;
-                let m = log.len().min(other.len());
+                if log.ents.is_empty() || other.ents.is_empty() {
+                    continue;
+                }
+                let lo = log.first.max(other.first);
+                let hi = log.last().min(other.last());
+                if lo > hi {
+                    continue;
+                }
                 let mut top = None;
-                for i in (0..m).rev() {
-                    if log[i].0 == other[i].0 {
-                        top = Some(i);
+                let mut i = hi;
+                loop {
+                    if let (Some(a), Some(b)) = (log.get(i), other.get(i)) {
+                        if a.0 == b.0 {
+                            top = Some(i);
+                            break;
+                        }
+                    }
+                    if i == lo {
                         break;
                     }
+                    i -= 1;
                 }
                 if let Some(top) = top {
-                    let mut bad: Option<(usize, &'static str)> = None;
-                    if log[top].1 != other[top].1 {
+                    let mut bad: Option<(u64, &'static str)> = None;
+                    if log.get(top).map(|e| e.1) != other.get(top).map(|e| e.1) {
                         bad = Some((top, "log-matching:same-index-and-term-different-entry"));
                     }
-                    for j in 0..top {
-                        if log[j] != other[j] {
-                            bad = Some((j, "log-matching:earlier-position-differs"));
+                    for j in lo..top {
+                        let (a, b) = (log.get(j), other.get(j));
+                        if a != b {
+                            bad = Some((j, if a.is_none() || b.is_none() { "log-matching:earlier-position-missing" } else { "log-matching:earlier-position-differs" }));
                             break;
                         }
                     }
                     if let Some((j, sig)) = bad {
                         let d = format!(
                             "n{} and n{} both hold term {} at index {}, but differ at index {}: n{} [{}] vs n{} [{}]",
-                            node, o, log[top].0, top + 1, j + 1, node, fmt_log(&log), o, fmt_log(other)
+                            node, o, log.get(top).map(|e| e.0).unwrap_or(0), top, j, node, fmt_log(&log), o, fmt_log(other)
                         );
                         self.flag(step, sig, d);
                         return;
@@ -414,6 +571,8 @@ struct Sim {
     inflight: Vec<Flight>,
     isolated: Vec<bool>,
     crashes: Vec<u32>,
+    /// node installed a snapshot since it was last started
+    installed_since_boot: Vec<bool>,
     next_payload: u64,
     next_seq: u64,
     dups: u32,
@@ -445,6 +604,7 @@ impl Sim {
             inflight: Vec::new(),
             isolated: vec![false; cfg.nodes],
             crashes: vec![0; cfg.nodes],
+            installed_since_boot: vec![false; cfg.nodes],
             next_payload: 1,
             next_seq: 0,
             dups: 0,
@@ -469,8 +629,14 @@ impl Sim {
     fn boot(&mut self, i: usize) -> bool {
         let peers: Vec<String> = (0..self.cfg.nodes).filter(|&j| j != i).map(nid).collect();
         let tr = CaptureTransport::new(&self.ids[i], &peers);
-        match RaftNode::with_wal(self.ids[i].clone(), peers, tr.clone(), self.cfg.raft(), &self.wal[i]) {
+        let rcfg = self.cfg.raft(self._scratch.path());
+        match RaftNode::with_wal(self.ids[i].clone(), peers, tr.clone(), rcfg, &self.wal[i]) {
             Ok(raft) => {
+                if self.installed_since_boot[i] {
+                    self.installed_since_boot[i] = false;
+                    self.mon.restarted_after_install[i] = true;
+                    self.cnt("installs_followed_by_restart");
+                }
                 if let Some(e) = &self.embed[i] {
                     raft.update_state_embedding_dense(e);
                 }
@@ -527,15 +693,27 @@ impl Sim {
         });
         match r {
             Ok((_term, _vote, log)) => {
-                let mut v = Vec::with_capacity(log.len());
-                for (pos, e) in log.iter().enumerate() {
-                    if e.index != pos as u64 + 1 {
-                        self.trouble = Some(format!("n{} log position {} holds index {} (non-contiguous log image)", n, pos + 1, e.index));
+                let mut img = Img { first: log.first().map_or(1, |e| e.index), ents: Vec::with_capacity(log.len()) };
+                let mut next = img.first;
+                for e in log.iter() {
+                    if e.index < next || e.index > next + 10_000 {
+                        // the same index twice / indices running backwards: not a log any more
+                        let step = self.step;
+                        let all = log.iter().map(|e| format!("{}:t{}#{}", e.index, e.term, e.block.header.height)).collect::<Vec<_>>().join(" ");
+                        self.mon.flag(step, "log-indices-not-increasing", format!("n{} holds a log whose entry indices do not increase: [{}]", n, all));
                         return false;
                     }
-                    v.push((e.term, e.block.header.height));
+                    while next < e.index {
+                        img.ents.push(None);
+                        next += 1;
+                    }
+                    img.ents.push(Some((e.term, e.block.header.height)));
+                    next += 1;
                 }
-                self.mon.logs[n] = Some(v);
+                if img.ents.iter().any(|e| e.is_none()) {
+                    self.cnt("images_with_missing_index");
+                }
+                self.mon.logs[n] = Some(img);
                 self.cnt("image_reads");
                 true
             }
@@ -555,10 +733,11 @@ impl Sim {
                 return;
             }
         }
-        let (role, term, commit) = {
+        let (role, term, commit, snap) = {
             let l = self.nodes[n].as_ref().unwrap();
-            (l.raft.state(), l.raft.current_term(), l.raft.commit_index())
+            (l.raft.state(), l.raft.current_term(), l.raft.commit_index(), l.raft.get_snapshot_metadata().map(|m| (m.last_included_index, m.last_included_term)))
         };
+        self.mon.snaps[n] = snap;
         let step = self.step;
         self.mon.check(step, n, role, term, commit, log_may_have_changed);
     }
@@ -566,11 +745,12 @@ impl Sim {
     fn state_line(&self, n: usize) -> String {
         match &self.nodes[n] {
             Some(l) => format!(
-                "n{}: {:?} term {} commit {} log [{}]",
+                "n{}: {:?} term {} commit {}{} log [{}]",
                 n,
                 l.raft.state(),
                 l.raft.current_term(),
                 l.raft.commit_index(),
+                l.raft.get_snapshot_metadata().map(|m| format!(" snapshot@{}t{}", m.last_included_index, m.last_included_term)).unwrap_or_default(),
                 self.mon.logs[n].as_ref().map(|x| fmt_log(x)).unwrap_or_default()
             ),
             None => format!("n{}: down", n),
@@ -581,6 +761,31 @@ impl Sim {
         let step = self.step;
         if let Some(t) = &mut self.trace {
             t.push(format!("{:>3}. {}", step, s));
+        }
+    }
+
+    /// The leader a lagging follower would pull a snapshot from: the node it believes to be leader,
+    /// provided that node really leads and its snapshot reaches beyond the end of the follower's log
+    /// (the follower is behind the snapshot). Nothing in the repository sends SnapshotRequest (only
+    /// the two handlers exist), so the simulator plays the pulling follower's driver.
+    fn snap_request_target(&self, n: usize) -> Option<usize> {
+        if self.cfg.snap == 0 || n >= self.cfg.nodes {
+            return None;
+        }
+        let me = self.nodes[n].as_ref()?;
+        if me.raft.state() != RaftState::Follower {
+            return None;
+        }
+        let l = nidx(&me.raft.current_leader()?)?;
+        if l == n || l >= self.cfg.nodes || !self.is_leader(l) {
+            return None;
+        }
+        let ll = self.nodes[l].as_ref()?;
+        let snap = ll.raft.get_snapshot_metadata()?;
+        if snap.last_included_index > me.raft.last_log_index() {
+            Some(l)
+        } else {
+            None
         }
     }
 
@@ -620,7 +825,8 @@ impl Sim {
                     self.cnt("msgs_lost_in_partition");
                     self.note(format!("n{} -> n{} {} LOST (partition)", f.from, f.to, mdesc(&f.msg)));
                 } else {
-                    let is_ae = matches!(f.msg, Message::AppendEntries(_));
+                    let is_ae = matches!(f.msg, Message::AppendEntries(_) | Message::SnapshotResponse(_));
+                    let snap_before = self.nodes[f.to].as_ref().unwrap().raft.get_snapshot_metadata().map(|m| m.last_included_index);
                     if let Message::AppendEntries(ae) = &f.msg {
                         self.mon.last_new[f.to] = ae.prev_log_index + ae.entries.len() as u64;
                         if ae.block_embedding.is_some() {
@@ -652,6 +858,25 @@ impl Sim {
                     let rd = reply.as_ref().map(mdesc);
                     if let Some(r) = reply {
                         self.send(f.to, f.from, r);
+                    }
+                    if let Message::SnapshotResponse(sr) = &f.msg {
+                        let snap_after = self.nodes[f.to].as_ref().unwrap().raft.get_snapshot_metadata().map(|m| m.last_included_index);
+                        if sr.is_last {
+                            if snap_after != snap_before {
+                                self.cnt("snapshots_installed");
+                                self.installed_since_boot[f.to] = true;
+                            } else {
+                                self.cnt("snapshot_last_chunks_not_installed");
+                            }
+                        } else if self.role(f.to) == Some(RaftState::Follower) {
+                            // the requester asks for the next chunk (what a pulling follower does)
+                            let next = Message::SnapshotRequest(SnapshotRequest {
+                                requester_id: self.ids[f.to].clone(),
+                                offset: sr.offset + sr.data.len() as u64,
+                                chunk_size: COMPACTION[self.cfg.snap as usize].2,
+                            });
+                            self.send(f.to, f.from, next);
+                        }
                     }
                     self.drain(f.to);
                     self.observe(f.to, is_ae);
@@ -845,6 +1070,59 @@ impl Sim {
                 }
                 true
             }
+            Ev::Finalize { n } => {
+                let n = *n;
+                if self.cfg.snap == 0 || n >= n_nodes || self.nodes[n].is_none() {
+                    return false;
+                }
+                let (commit, fin) = {
+                    let l = &self.nodes[n].as_ref().unwrap().raft;
+                    (l.commit_index(), l.finalized_height())
+                };
+                if commit <= fin {
+                    return false;
+                }
+                self.step += 1;
+                let ok = self.nodes[n].as_ref().unwrap().raft.finalize_to(commit).is_ok();
+                self.note(format!("application on n{} has applied up to {}: finalize_to -> {}", n, commit, if ok { "ok" } else { "refused" }));
+                true
+            }
+            Ev::LeaderTick { n } => {
+                let n = *n;
+                if self.cfg.snap == 0 || n >= n_nodes || !self.is_leader(n) {
+                    return false;
+                }
+                self.step += 1;
+                let before = self.nodes[n].as_ref().unwrap().raft.get_snapshot_metadata().map(|m| m.last_included_index);
+                let res = block_on(self.nodes[n].as_ref().unwrap().raft.tick_async());
+                let after = self.nodes[n].as_ref().unwrap().raft.get_snapshot_metadata().map(|m| m.last_included_index);
+                if after != before {
+                    self.cnt("compactions");
+                }
+                if let Err(e) = &res {
+                    self.cnt("leader_tick_errors");
+                    self.note(format!("tick_async on leader n{} returned an error: {}", n, e));
+                }
+                self.drain(n);
+                self.observe(n, true);
+                if self.trace.is_some() {
+                    let s = format!("leader n{} ticks{}   => {}", n, if after != before { " and compacts its log" } else { "" }, self.state_line(n));
+                    self.note(s);
+                }
+                true
+            }
+            Ev::SnapRequest { n } => {
+                let n = *n;
+                let l = match self.snap_request_target(n) {
+                    Some(l) => l,
+                    None => return false,
+                };
+                self.step += 1;
+                let m = Message::SnapshotRequest(SnapshotRequest { requester_id: self.ids[n].clone(), offset: 0, chunk_size: COMPACTION[self.cfg.snap as usize].2 });
+                self.note(format!("follower n{} is behind the snapshot of its leader n{} and asks for it", n, l));
+                self.send(n, l, m);
+                true
+            }
         };
         if ok {
             self.cnt(&format!("ev_{}", ev.kind()));
@@ -852,7 +1130,7 @@ impl Sim {
                 Ev::Deliver { key } | Ev::Dup { key } | Ev::Drop { key } => {
                     hash_combine(hash_str(&key.k), (key.from as u64) << 40 | (key.to as u64) << 32 | key.t << 8 | key.a)
                 }
-                Ev::Timeout { n } | Ev::Elapse { n } | Ev::Election { n } | Ev::Heartbeat { n } | Ev::QuorumCheck { n } | Ev::Isolate { n } | Ev::Heal { n } | Ev::Crash { n } | Ev::Restart { n } => *n as u64,
+                Ev::Timeout { n } | Ev::Elapse { n } | Ev::Election { n } | Ev::Heartbeat { n } | Ev::QuorumCheck { n } | Ev::Isolate { n } | Ev::Heal { n } | Ev::Crash { n } | Ev::Restart { n } | Ev::Finalize { n } | Ev::LeaderTick { n } | Ev::SnapRequest { n } => *n as u64,
                 Ev::Propose { n, hb } => (*n as u64) << 1 | *hb as u64,
             };
             self.hash = hash_combine(hash_combine(self.hash, hash_str(ev.kind())), tag);
@@ -885,6 +1163,10 @@ struct Profile {
     /// adversarial delay: successful AppendEntries answers become stragglers more often and are then
     /// only released while their addressee leads a later term (any delay is legal for the network)
     hold_acks: bool,
+    /// compaction configs only: application finalizes, leader ticks, lagging follower pulls a snapshot
+    w_finalize: u32,
+    w_tick: u32,
+    w_snapreq: u32,
 }
 
 fn profile(rng: &mut Rng, cfg: &Cfg) -> Profile {
@@ -908,6 +1190,9 @@ fn profile(rng: &mut Rng, cfg: &Cfg) -> Profile {
         slow_pct: *rng.pick(&[0, 4, 10]),
         w_slow: *rng.pick(&[1, 2]),
         hold_acks: rng.chance(1, 3),
+        w_finalize: if cfg.snap > 0 { *rng.pick(&[3, 6]) } else { 0 },
+        w_tick: if cfg.snap > 0 { *rng.pick(&[3, 6]) } else { 0 },
+        w_snapreq: if cfg.snap > 0 { *rng.pick(&[4, 10]) } else { 0 },
     }
 }
 
@@ -938,6 +1223,14 @@ fn gen_event(rng: &mut Rng, p: &Profile, s: &Sim) -> Option<Ev> {
     // never take a majority down at once for long: keep the schedule productive (not a soundness matter)
     let can_crash = !crashable.is_empty() && down.len() < n / 2 + 1;
     let cut: Vec<usize> = (0..n).filter(|&i| s.isolated[i]).collect();
+    let (finalizable, pullers): (Vec<usize>, Vec<usize>) = if s.cfg.snap > 0 {
+        (
+            live.iter().copied().filter(|&i| s.nodes[i].as_ref().map_or(false, |l| l.raft.commit_index() > l.raft.finalized_height())).collect(),
+            live.iter().copied().filter(|&i| s.snap_request_target(i).is_some()).collect(),
+        )
+    } else {
+        (Vec::new(), Vec::new())
+    };
     if s.inflight.len() > MAX_INFLIGHT {
         let k = rng.below(s.inflight.len());
         return Some(Ev::Drop { key: s.inflight[k].key.clone() });
@@ -956,6 +1249,9 @@ fn gen_event(rng: &mut Rng, p: &Profile, s: &Sim) -> Option<Ev> {
         if can_crash { p.w_crash } else { 0 },
         if down.is_empty() { 0 } else { p.w_restart },
         if stragglers.is_empty() { 0 } else if p.hold_acks { p.w_slow * 4 } else { p.w_slow },
+        if finalizable.is_empty() { 0 } else { p.w_finalize },
+        if leaders.is_empty() { 0 } else { p.w_tick },
+        if pullers.is_empty() { 0 } else { p.w_snapreq },
     ];
     if w.iter().all(|&x| x == 0) {
         return None;
@@ -984,7 +1280,10 @@ fn gen_event(rng: &mut Rng, p: &Profile, s: &Sim) -> Option<Ev> {
         }
         10 => Ev::Crash { n: *rng.pick(&crashable) },
         11 => Ev::Restart { n: *rng.pick(&down) },
-        _ => Ev::Deliver { key: s.inflight[*rng.pick(&stragglers)].key.clone() },
+        12 => Ev::Deliver { key: s.inflight[*rng.pick(&stragglers)].key.clone() },
+        13 => Ev::Finalize { n: *rng.pick(&finalizable) },
+        14 => Ev::LeaderTick { n: *rng.pick(&leaders) },
+        _ => Ev::SnapRequest { n: *rng.pick(&pullers) },
     })
 }
 
@@ -1050,7 +1349,10 @@ fn run_random(args: &Args, cfg: Cfg, case_seed: u64, want_trace: bool) -> Outcom
 fn run_mixed(args: &Args, bits: u64, case_seed: u64, want_trace: bool) -> (Cfg, Vec<Option<Vec<f32>>>, Outcome) {
     let mut rng = Rng::new(case_seed);
     let scripts = directed_scripts();
-    let (_, nodes, ops) = &scripts[rng.below(scripts.len())];
+    // compaction cases continue a script written for compaction, the others one of the plain scripts
+    let want_snap = (bits >> 3) & 7 > 0;
+    let pool: Vec<&(&'static str, usize, u64, Vec<Op>)> = scripts.iter().filter(|x| (x.2 > 0) == want_snap).collect();
+    let (_, nodes, _, ops) = pool[rng.below(pool.len())];
     let cfg = Cfg::from_bits(*nodes, bits);
     let emb = if rng.bool() { gen_embeddings(&mut rng, &cfg) } else { vec![None; cfg.nodes] };
     let cut = rng.below(ops.len() + 1);
@@ -1158,6 +1460,12 @@ fn absorb(r: &mut Report, cfg: &Cfg, o: &Outcome) {
     r.count("commit_agreement_checks", o.mon.commit_checks);
     r.count("leader_completeness_checks", o.mon.completeness_checks);
     r.count("log_matching_pair_checks", o.mon.matching_checks);
+    r.count("snapshot_agreement_checks", o.mon.snapshot_checks);
+    r.count("leader_completeness_behind_snapshot", o.mon.completeness_behind_snapshot);
+    r.count("leaders_elected_after_install_and_restart", o.mon.leaders_after_install_and_restart);
+    if cfg.snap > 0 {
+        r.count("compaction_cases", 1);
+    }
     r.count_max("max:term", o.mon.max_term);
     r.count_max("max:commit_index", o.mon.max_commit);
     r.count(&format!("cases[{}]", cfg.name()), 1);
@@ -1182,7 +1490,7 @@ fn report_outcome(args: &Args, r: &mut Report, part: &str, cfg: Cfg, emb: &[Opti
             r.eval(hash_combine(o.hash, cfg.bits() << 8 | cfg.nodes as u64), nontrivial);
             let directed_part = part.starts_with("directed");
             let wanted = if directed_part {
-                cfg.bits() == 0 && r.samples.len() < 2
+                cfg.bits() & 7 == 0 && r.samples.len() < 2
             } else {
                 nontrivial && o.counts.get("ev_crash").copied().unwrap_or(0) > 0 && o.steps < 450
             };
@@ -1251,14 +1559,25 @@ fn random_case(args: &Args, i: u64, case_seed: u64, r: &mut Report) {
     } else {
         3
     };
+    // one case in three runs with log compaction and snapshot transfer reachable
+    let snap = match args.extra.get("snap") {
+        Some(v) => v.parse::<u64>().unwrap_or(0).min(4),
+        None => {
+            if (i / 8) % 3 == 2 {
+                1 + (i / 24) % if args.extra_u64("drain", 0) > 0 { 4 } else { 2 }
+            } else {
+                0
+            }
+        }
+    };
     if i % 4 == 3 && !args.extra.contains_key("nodes") {
-        let (cfg, emb, o) = run_mixed(args, (i / 4) % 8, case_seed, false);
+        let (cfg, emb, o) = run_mixed(args, (i / 4) % 8 | snap << 3, case_seed, false);
         r.count("mixed_cases", 1);
         report_outcome(args, r, "mixed", cfg, &emb, Some(case_seed), o);
         return;
     }
     let nodes = args.extra_u64("nodes", nodes as u64) as usize;
-    let cfg = Cfg::from_bits(nodes, i % 8);
+    let cfg = Cfg::from_bits(nodes, i % 8 | snap << 3);
     let o = run_random(args, cfg, case_seed, false);
     let emb = gen_embeddings(&mut Rng::new(case_seed), &cfg);
     report_outcome(args, r, "random", cfg, &emb, Some(case_seed), o);
@@ -1342,7 +1661,7 @@ fn dropk(from: usize, to: &[usize], k: &'static str) -> Vec<Op> {
     to.iter().map(|&t| Op::DropBetween { from, to: t, k }).collect()
 }
 
-fn directed_scripts() -> Vec<(&'static str, usize, Vec<Op>)> {
+fn directed_scripts() -> Vec<(&'static str, usize, u64, Vec<Op>)> {
     let mut out = Vec::new();
     // 1. (3 voters) A follower that still holds an uncommitted suffix from an older term answers a
     //    heartbeat of the new leader that only covers their common prefix.
@@ -1364,7 +1683,7 @@ fn directed_scripts() -> Vec<(&'static str, usize, Vec<Op>)> {
         s.push(Op::Flush { from: 0, to: 1, k: "AER" }); // n0's answer reaches the leader
         s.push(Op::E(Ev::Crash { n: 1 }));
         s.extend(elect(0, &[2])); // n0 (log 1:t1 2:t1 3:t1) wins term 3 with n2's vote
-        out.push(("follower-with-stale-suffix-answers-short-heartbeat", 3, s));
+        out.push(("follower-with-stale-suffix-answers-short-heartbeat", 3, 0, s));
     }
     // 2. (5 voters) An answer to an AppendEntries of term 1 reaches the same node when it leads term 3
     //    with a different log, and is counted toward the quorum for new entries.
@@ -1395,7 +1714,7 @@ fn directed_scripts() -> Vec<(&'static str, usize, Vec<Op>)> {
         s.push(Op::Flush { from: 3, to: 0, k: "AER" }); // n0 + n3 hold 2,3: two of five
         s.extend(dropk(0, &[1, 2, 4], "AE"));
         s.extend(elect(2, &[1, 4])); // n2 (log [1:t2#4]) wins term 4 with n1 and n4
-        out.push(("append-response-of-earlier-term-counted-toward-quorum", 5, s));
+        out.push(("append-response-of-earlier-term-counted-toward-quorum", 5, 0, s));
     }
     // 3. (5 voters) The same late answer pushes next_index past the leader's log; the next heartbeat
     //    then carries prev (0,0), which any follower accepts, together with the leader's commit index.
@@ -1423,7 +1742,7 @@ fn directed_scripts() -> Vec<(&'static str, usize, Vec<Op>)> {
         s.push(Op::Flush { from: 1, to: 0, k: "AER" }); // term-1 answer: next_index[n1] = 4 > log end
         s.push(Op::E(Ev::Heartbeat { n: 0 }));
         s.push(Op::Flush { from: 0, to: 1, k: "AE" }); // prev (0,0), no entries, leader_commit 1
-        out.push(("heartbeat-with-zero-prev-after-late-append-response", 5, s));
+        out.push(("heartbeat-with-zero-prev-after-late-append-response", 5, 0, s));
     }
     // 4. (3 voters) crash / restart of a voter between vote and count; leader crash after partial replication
     {
@@ -1447,17 +1766,81 @@ fn directed_scripts() -> Vec<(&'static str, usize, Vec<Op>)> {
         s.push(Op::E(Ev::Restart { n: 0 }));
         s.extend(replicate(1, &[0, 2]));
         s.extend(replicate(1, &[0, 2]));
-        out.push(("vote-memory-and-leader-crash", 3, s));
+        out.push(("vote-memory-and-leader-crash", 3, 0, s));
+    }
+    // 5. (3 voters, snapshots) A follower that was cut off is brought up to date with the leader's
+    //    snapshot, acknowledges one more entry (which commits through that acknowledgement), crashes,
+    //    restarts from its WAL and is elected by the one surviving voter with a shorter log.
+    for snap in [1u64, 2] {
+        let mut s = Vec::new();
+        s.extend(elect(0, &[1, 2])); // n0 leads term 1
+        s.extend(replicate(0, &[1, 2])); // n2 learns who leads
+        s.push(Op::E(Ev::Isolate { n: 2 }));
+        s.extend(props(0, 4)); // #1..#4
+        s.extend(replicate(0, &[1])); // committed on n0 through n1
+        s.extend(replicate(0, &[1]));
+        s.extend(dropk(0, &[2], "AE"));
+        s.push(Op::E(Ev::Finalize { n: 0 }));
+        s.push(Op::E(Ev::LeaderTick { n: 0 })); // snapshot at index 4
+        s.push(Op::E(Ev::Heal { n: 2 }));
+        s.push(Op::E(Ev::SnapRequest { n: 2 }));
+        for _ in 0..8 {
+            // chunk by chunk: request -> answer -> next request
+            s.push(Op::Flush { from: 2, to: 0, k: "SRQ" });
+            s.push(Op::Flush { from: 0, to: 2, k: "SRS" });
+        }
+        s.push(Op::E(Ev::Isolate { n: 1 }));
+        s.extend(props(0, 1)); // #5 at index 5
+        s.extend(replicate(0, &[2])); // may first have to back up next_index
+        s.extend(replicate(0, &[2]));
+        s.extend(replicate(0, &[2])); // n0 + n2 hold index 5: committed through n2's answer
+        s.extend(dropk(0, &[1], "AE"));
+        s.push(Op::E(Ev::Crash { n: 2 }));
+        s.push(Op::E(Ev::Restart { n: 2 }));
+        s.push(Op::E(Ev::Crash { n: 0 }));
+        s.push(Op::E(Ev::Heal { n: 1 }));
+        s.extend(elect(2, &[1])); // n1 holds 1..4 only and votes for n2
+        s.extend(replicate(2, &[1]));
+        s.extend(replicate(2, &[1]));
+        out.push((if snap == 1 { "snapshot-install-then-ack-restart-and-lead" } else { "snapshot-install-in-chunks-then-ack-restart-and-lead" }, 3, snap, s));
+    }
+    // 6. (3 voters, snapshots) The snapshot a follower asked for while it was behind arrives after
+    //    AppendEntries has already brought it further than the snapshot reaches.
+    {
+        let mut s = Vec::new();
+        s.extend(elect(0, &[1, 2]));
+        s.extend(replicate(0, &[1, 2]));
+        s.push(Op::E(Ev::Isolate { n: 2 }));
+        s.extend(props(0, 4)); // #1..#4
+        s.extend(replicate(0, &[1])); // committed through n1
+        s.extend(dropk(0, &[2], "AE"));
+        s.push(Op::E(Ev::Finalize { n: 0 }));
+        s.push(Op::E(Ev::LeaderTick { n: 0 })); // snapshot at index 4
+        s.push(Op::E(Ev::Heal { n: 2 }));
+        s.push(Op::E(Ev::SnapRequest { n: 2 }));
+        s.push(Op::Flush { from: 2, to: 0, k: "SRQ" }); // the answer (whole snapshot) is now in flight
+        s.extend(props(0, 1)); // #5 at index 5
+        s.push(Op::E(Ev::Heartbeat { n: 0 }));
+        s.extend(dropk(0, &[1], "AE"));
+        s.push(Op::Flush { from: 0, to: 2, k: "AE" }); // n2 receives 1..5
+        s.push(Op::Flush { from: 2, to: 0, k: "AER" }); // index 5 commits through n2's answer
+        s.push(Op::Flush { from: 0, to: 2, k: "SRS" }); // the late snapshot (1..4) arrives
+        s.push(Op::E(Ev::Crash { n: 0 }));
+        s.extend(elect(1, &[2])); // n1 holds 1..4
+        out.push(("snapshot-arrives-after-append-entries-went-further", 3, 1, s));
     }
     out
 }
 
 fn directed(args: &Args, r: &mut Report) {
-    for (name, nodes, ops) in directed_scripts() {
+    for (name, nodes, snap, ops) in directed_scripts() {
         for bits in 0..8u64 {
             // scripts use start_election_async directly, so pre-vote only changes what Timeout would do
-            let cfg = Cfg::from_bits(nodes, bits);
+            let cfg = Cfg::from_bits(nodes, bits | snap << 3);
             let verbose = args.extra.contains_key("verbose") && bits == 0;
+            if args.extra.get("script").map_or(false, |x| !name.contains(x.as_str())) {
+                continue;
+            }
             let o = run_script(args, cfg, &ops, verbose);
             if verbose {
                 eprintln!("=== directed {} ===", name);
@@ -1539,7 +1922,10 @@ fn main() {
             "crashes are clean process crashes between two simulator events: every WAL record is whole (torn tails are C10's subject); messages addressed to a crashed node stay in flight and may be dropped or delivered after the restart".into(),
             "election timers are simulator events: election_timeout.0 = 8 s, reset_heartbeat_for_election() makes a timer 'run out'; the election-timeout event runs the real tick_async".into(),
             "with enable_pre_vote=true the pinned tree can never broadcast RequestVote from its run loop (a won pre-vote calls the synchronous start_election(), which builds the RequestVote and discards it), so pre-vote configs additionally fire start_election_async() directly; Raft safety must hold for arbitrary election starts, so this cannot raise a false alarm".into(),
-            "membership is fixed; no snapshot install / log compaction (snapshot_threshold stays at 10 000); no leadership transfer".into(),
+            "membership is fixed; no leadership transfer".into(),
+            "one case in three runs with snapshots reachable (snapshot_threshold 3-5, compaction_check_interval 1, cooldown 0): the application finalizes what is committed (finalize_to(commit_index)), the leader's real tick_async compacts, and a follower whose log ends before its leader's snapshot pulls that snapshot chunk by chunk through the real handle_snapshot_request / handle_snapshot_response. The repository contains both handlers but nothing that sends SnapshotRequest, so the simulator plays the pulling follower's driver (first request, then one request per received chunk); those requests are the only messages not produced by RaftNode itself".into(),
+            "with compaction only indices a node still holds are compared (a compacted prefix is represented by the node's snapshot, whose last included index/term must agree with the committed map); a held log with a missing index in its middle is reported".into(),
+            "by default snapshots keep the whole log behind them (snapshot_trailing_logs 1000); the draining variants (trailing logs 0/1) run only with --drain 1, because on a tree without the get_entries_for_follower / install_snapshot_entries / with_wal repairs reported with this harness they violate C01 in ~5-10% of the cases".into(),
             "leader completeness is demanded of a leader of term T only for entries first reported committed by a node whose current term was < T (at election) or <= T (while it stays leader): such an entry was committed in a term <= the reporter's term".into(),
         ],
         floors: if args.replay.is_some() {
@@ -1549,7 +1935,7 @@ fn main() {
                 ("cases", args.by_tier(2_000, 20_000)),
                 ("distinct_nontrivial", args.by_tier(1_500, 15_000)),
                 ("mixed_cases", args.by_tier(500, 5_000)),
-                ("directed_scripts_run", 32),
+                ("directed_scripts_run", 56),
                 ("leaders_elected", args.by_tier(15_000, 150_000)),
                 ("committed_entries", args.by_tier(25_000, 250_000)),
                 ("commit_agreement_checks", args.by_tier(2_000_000, 20_000_000)),
@@ -1565,6 +1951,12 @@ fn main() {
                 ("ev_drop", args.by_tier(20_000, 200_000)),
                 ("msgs_lost_in_partition", args.by_tier(40_000, 400_000)),
                 ("earlier_term_ack_delivered_to_leader", args.by_tier(500, 5_000)),
+                ("compaction_cases", args.by_tier(600, 6_000)),
+                ("compactions", args.by_tier(2_000, 20_000)),
+                ("snapshots_installed", args.by_tier(150, 1_500)),
+                ("installs_followed_by_restart", args.by_tier(60, 600)),
+                ("leaders_elected_after_install_and_restart", args.by_tier(60, 600)),
+                ("snapshot_agreement_checks", args.by_tier(50_000, 500_000)),
             ]
         },
         exhaustive: false,
